@@ -269,7 +269,7 @@ def run(sc, budget=None):
 
 @st.composite
 def scenarios(draw, max_user=4, max_sources=3, failures=True, searchers=True, borrowers=True, aliases=True,
-              base_variation=True, realgen=True, multi_file=True, options=None):
+              base_variation=True, realgen=True, multi_file=True, options=None, bad_extra=False):
     n = draw(st.integers(1, max_user))
     user = list(USER[:n])
     universe = user + list(BASE)
@@ -329,7 +329,7 @@ def scenarios(draw, max_user=4, max_sources=3, failures=True, searchers=True, bo
         i = draw(st.integers(0, nsrc - 1))
         if sources[i].get(first) == 'good':
             sources[i][first] = ['file', first, 'good', [second],
-                                 draw(st.sampled_from(('good', 'semantic', 'semantic2') if failures else ('good',)))]
+                                 draw(st.sampled_from(('good', 'semantic', 'semantic2') if (failures and bad_extra) else ('good',)))]
     codegen = {}
     writer = {}
     for m in universe:
@@ -349,8 +349,9 @@ def scenarios(draw, max_user=4, max_sources=3, failures=True, searchers=True, bo
                     if r != 'absent':
                         ans[m] = r
                 srch.append({'answers': ans, 'honour_rebuild': draw(st.booleans())})
+    tail_bad = any(isinstance(v, list) and len(v) > 4 and v[4] != 'good' for src in sources for v in src.values())
     borr = []
-    if borrowers:
+    if borrowers and not tail_bad:
         for i in range(draw(st.integers(0, 3))):
             holds = {}
             for m in universe + ['MZ-MIB']:
@@ -373,17 +374,27 @@ def scenarios(draw, max_user=4, max_sources=3, failures=True, searchers=True, bo
 
 
 def source_view(sc, name):
-    """Per source, what it holds for a requested/imported name: list of (outcome, canonical, extras)."""
+    """Per source, what it holds for a requested/imported name: list of (outcome, canonical, usable extra modules)."""
     out = []
     for s in sc['sources']:
         oc = s.get(name, 'absent')
         if isinstance(oc, list):
-            toc = oc[2]
-            if toc == 'good' and len(oc) > 4 and oc[4] != 'good' and oc[3]:
-                toc = oc[4]    # a broken later module fails the whole file for this source
-            out.append((toc, oc[1], list(oc[3])))
+            extras = list(oc[3])
+            if len(oc) > 4 and oc[4] != 'good':
+                extras = []      # the later module of the file is broken: only the modules before it are usable
+            out.append((oc[2], oc[1], extras))
         else:
             out.append((oc, name, []))
+    return out
+
+
+def tail_failures(sc):
+    """File names whose first module is good but whose later module fails (the file lookup is recorded failed)."""
+    out = set()
+    for s in sc['sources']:
+        for k, v in s.items():
+            if isinstance(v, list) and len(v) > 4 and v[4] != 'good' and v[2] == 'good' and v[3]:
+                out.add(k)
     return out
 
 
@@ -397,25 +408,26 @@ def supplier(sc, name):
 
 
 def closure(sc):
-    """Names compile() must account for: requested names resolved to module names where a usable source exists,
-    plus everything reachable through IMPORTS (and the implicit base imports) of usable modules."""
+    """Names compile() must account for: the work list the statement describes - requested names first, then every
+    module named in IMPORTS (plus the three implicit base imports, in sorted order) of each module obtained; a
+    name is looked up once and a module already obtained (possibly from a file of another name) is not fetched again."""
     keys = set()
     supplied = {}
     todo = list(sc['requested'])
-    seen = set()
+    looked = set()
     while todo:
         name = todo.pop(0)
-        if name in seen:
+        if name in looked:
             continue
-        seen.add(name)
+        looked.add(name)
+        if name in supplied:
+            continue
         i, canon, extras = supplier(sc, name)
         if i is None:
             keys.add(name)
             continue
         for m in [canon] + extras:
             keys.add(m)
-            supplied.setdefault(m, i)
-            for imp in list(sc['imports'].get(m, [])) + list(BASE):
-                if imp not in seen:
-                    todo.append(imp)
+            supplied[m] = i
+            todo.extend(sorted(set(list(sc['imports'].get(m, [])) + list(BASE))))
     return keys, supplied
